@@ -26,10 +26,11 @@ structure Env (A Au : Type) where
   pa : Parser A
   pu : Parser Au
   compute : A → Nat               -- action.ComputeUnits(r)
-  keys : A → Bytes → List Bytes   -- action.StateKeys(actor, actionID): the keys of a Go map
+  keys : A → Bytes → Bytes → List Bytes   -- action.StateKeys(actor, actionID): the keys of a Go map
+  actor : Au → Bytes              -- auth.Actor()
   actionID : Bytes → Nat → Bytes  -- chain.CreateActionID(txID, i)
   txID : Bytes → Bytes            -- utils.ToID(tx bytes)
-  chunks : Bytes → Nat            -- keys.MaxChunks(k)
+  chunks : Bytes → Option Nat     -- keys.MaxChunks(k) / DecodeChunks: `none` for a key shorter than 2 bytes
   authCompute : Au → Nat          -- auth.ComputeUnits(r)
   sponsorKeys : Au → List Bytes   -- bh.SponsorStateKeys(auth.Sponsor())
 
@@ -71,26 +72,29 @@ def withIdx {α} : Nat → List α → List (α × Nat)
 /-- `ids.Empty`, the placeholder tx id `EstimateUnits` derives the action ids from -/
 def emptyID : Bytes := zeros 32
 
-/-- `EstimateUnits(r, actions, authFactory)`; `authBw, authCompute = authFactory.MaxUnits()` -/
-def estimateUnits {A Au} (env : Env A Au) (r : Rules) (actions : List A) (authBw authCompute : Nat) :
-    Option Dims :=
+/-- `EstimateUnits(r, actions, authFactory)`; `addr = authFactory.Address()`,
+`authBw, authCompute = authFactory.MaxUnits()` -/
+def estimateUnits {A Au} (env : Env A Au) (r : Rules) (actions : List A) (addr : Bytes)
+    (authBw authCompute : Nat) : Option Dims :=
   let bandwidth := estBandwidth (actions.map fun a => (env.pa.bytes a).length) authBw
   -- per action: `action.StateKeys(actor, CreateActionID(ids.Empty, uint8(i))).ChunkSizes()`, appended
-  -- (keys shared between actions are counted once per action)
-  let chunks := (withIdx 0 actions).flatMap (fun ai => (env.keys ai.1 (env.actionID emptyID ai.2)).map env.chunks)
-    ++ r.sponsorChunks
-  match checked (r.baseCompute + sum (actions.map env.compute) + authCompute) with
+  -- (keys shared between actions are counted once per action); `!ok` → ErrInvalidKeyValue
+  match mapM? (fun ai => mapM? env.chunks (env.keys ai.1 addr (env.actionID emptyID ai.2))) (withIdx 0 actions) with
   | none => none
-  | some compute =>
-    match checked (storage r.keyRead r.valRead chunks) with
+  | some css =>
+    let chunks := css.flatten ++ r.sponsorChunks
+    match checked (r.baseCompute + sum (actions.map env.compute) + authCompute) with
     | none => none
-    | some reads =>
-      match checked (storage r.keyAlloc r.valAlloc chunks) with
+    | some compute =>
+      match checked (storage r.keyRead r.valRead chunks) with
       | none => none
-      | some allocs =>
-        match checked (storage r.keyWrite r.valWrite chunks) with
+      | some reads =>
+        match checked (storage r.keyAlloc r.valAlloc chunks) with
         | none => none
-        | some writes => some ⟨bandwidth, compute, reads, allocs, writes⟩
+        | some allocs =>
+          match checked (storage r.keyWrite r.valWrite chunks) with
+          | none => none
+          | some writes => some ⟨bandwidth, compute, reads, allocs, writes⟩
 
 /-- the key set of `StateKeys`: a Go map, i.e. the distinct keys -/
 def dedup : List Bytes → List Bytes
@@ -100,26 +104,76 @@ def dedup : List Bytes → List Bytes
 /-- `(*Transaction).StateKeys(bh)`: action `i` is asked with `CreateActionID(t.GetID(), uint8(i))` -/
 def stateKeys {A Au} (env : Env A Au) (t : Tx A Au) : List Bytes :=
   dedup ((withIdx 0 t.actions).flatMap
-      (fun ai => env.keys ai.1 (env.actionID (env.txID (encodeTx env.pa env.pu t)) ai.2))
+      (fun ai => env.keys ai.1 (env.actor t.auth) (env.actionID (env.txID (encodeTx env.pa env.pu t)) ai.2))
     ++ env.sponsorKeys t.auth)
 
-/-- `(*Transaction).Units(bh, r)`; bandwidth is `len(tx.Bytes())` -/
+/-- `(*Transaction).Units(bh, r)`; bandwidth is `len(tx.Bytes())`.  `StateKeys` fails
+(`Keys.Add` → ErrInvalidKeyValue) on a key shorter than 2 bytes, exactly when `MaxChunks` does. -/
 def units {A Au} (env : Env A Au) (r : Rules) (t : Tx A Au) : Option Dims :=
-  let chunks := (stateKeys env t).map env.chunks
-  match checked (r.baseCompute + sum (t.actions.map env.compute) + env.authCompute t.auth) with
+  match mapM? env.chunks (stateKeys env t) with
   | none => none
-  | some compute =>
-    match checked (storage r.keyRead r.valRead chunks) with
+  | some chunks =>
+    match checked (r.baseCompute + sum (t.actions.map env.compute) + env.authCompute t.auth) with
     | none => none
-    | some reads =>
-      match checked (storage r.keyAlloc r.valAlloc chunks) with
+    | some compute =>
+      match checked (storage r.keyRead r.valRead chunks) with
       | none => none
-      | some allocs =>
-        match checked (storage r.keyWrite r.valWrite chunks) with
+      | some reads =>
+        match checked (storage r.keyAlloc r.valAlloc chunks) with
         | none => none
-        | some writes => some ⟨(encodeTx env.pa env.pu t).length, compute, reads, allocs, writes⟩
+        | some allocs =>
+          match checked (storage r.keyWrite r.valWrite chunks) with
+          | none => none
+          | some writes => some ⟨(encodeTx env.pa env.pu t).length, compute, reads, allocs, writes⟩
 
 def Dims.le (a b : Dims) : Prop :=
   a.bandwidth ≤ b.bandwidth ∧ a.compute ≤ b.compute ∧ a.read ≤ b.read ∧ a.allocate ≤ b.allocate ∧ a.write ≤ b.write
+
+/-! ## GenerateTransaction -/
+
+/-- `fees.MulSum(prices, d)` as a number -/
+def mulSum (p d : Dims) : Nat :=
+  p.bandwidth * d.bandwidth + p.compute * d.compute + p.read * d.read + p.allocate * d.allocate + p.write * d.write
+
+/-- `fees.MulSum`: `math.Mul` / `math.Add` fail on overflow; operands are non-negative, so an
+error is returned exactly when the total exceeds MaxUint64. -/
+def mulSumChecked (p d : Dims) : Option Nat := checked (mulSum p d)
+
+/-- uint64 ↔ its 8 little-endian bytes (`AppendFint64` / `ReadFint64`) -/
+def le64 (n : Nat) : Bytes :=
+  [UInt8.ofNat (n % 256), UInt8.ofNat (n / 256 % 256), UInt8.ofNat (n / 65536 % 256),
+   UInt8.ofNat (n / 16777216 % 256), UInt8.ofNat (n / 4294967296 % 256),
+   UInt8.ofNat (n / 1099511627776 % 256), UInt8.ofNat (n / 281474976710656 % 256),
+   UInt8.ofNat (n / 72057594037927936 % 256)]
+def ofLE64 (b : Bytes) : Nat := b.foldr (fun x a => a * 256 + x.toNat) 0
+
+/-- `chain.AuthFactory` -/
+structure Factory (Au : Type) where
+  sign : Bytes → Au        -- Sign(unsignedBytes)
+  address : Bytes          -- Address()
+  maxBandwidth : Nat       -- MaxUnits()
+  maxCompute : Nat
+
+/-- `chain.RuleFactory` and what `GenerateTransactionManual` reads from the rules -/
+structure RuleSource where
+  rulesAt : Int → Rules    -- GetRules(t)
+  chainID : Int → Bytes    -- GetRules(t).GetChainID()
+  expiry : Int → Int       -- utils.UnixRMilli(t, GetRules(t).GetValidityWindow())
+
+/-- `GenerateTransaction(ruleFactory, unitPrices, timestamp, actions, authFactory)`:
+`rules := GetRules(timestamp)`; `units := EstimateUnits(rules, actions, authFactory)`;
+`maxFee := MulSum(unitPrices, units)`; then `GenerateTransactionManual`: `NewTxData(Base{expiry,
+chain id, maxFee}, actions).Sign(authFactory)`. -/
+def generateTransaction {A Au} (env : Env A Au) (rs : RuleSource) (prices : Dims) (timestamp : Int)
+    (actions : List A) (fac : Factory Au) : Option (Tx A Au) :=
+  match estimateUnits env (rs.rulesAt timestamp) actions fac.address fac.maxBandwidth fac.maxCompute with
+  | none => none
+  | some est =>
+    match mulSumChecked prices est with
+    | none => none
+    | some maxFee =>
+      let base : Base := { timestamp := rs.expiry timestamp, chainID := rs.chainID timestamp, maxFee := le64 maxFee }
+      let unsigned := encode txSpec (serializeTxMsg (encodeBase base) (actions.map env.pa.bytes) [])
+      some { base, actions, auth := fac.sign unsigned }
 
 end HyperModel.Estimate
